@@ -117,7 +117,7 @@ impl Property for C02 {
     fn cases(&self, tier: Tier) -> u64 {
         match tier {
             Tier::Quick => 90_000,
-            Tier::Thorough => 1_500_000,
+            Tier::Thorough => 800_000,
         }
     }
     fn required_labels(&self, _tier: Tier) -> Vec<&'static str> {
